@@ -373,10 +373,33 @@ func (h *histT) run(route string, req *dns.Msg) *dns.Msg {
 
 // recTok: one record of a reply reduced to (piece, section, ttl, mark).
 type recTok struct {
-	tok  string
-	ns   bool
-	ttl  int64
-	mark int
+	tok   string
+	ns    bool
+	ttl   int64
+	mark  int
+	fresh bool // relayed from the upstream answer of this very op (not from the cache)
+}
+
+// markFresh: a record is fresh when the upstream answered for its piece in
+// this op and the record carries that answer's mark (records without a mark
+// are answer-section CNAMEs, which are never copied into another entry).
+func markFresh(recs []recTok, answered map[string]int, script map[string]*specT) {
+	for i := range recs {
+		r := &recs[i]
+		sp := script[r.tok]
+		r.fresh = r.tok[0] == 'n' && answered[r.tok] > 0 && sp != nil && (r.mark < 0 || r.mark == sp.mark)
+	}
+}
+
+// cachedAnswerPieces: pieces whose answer records came out of the cache.
+func cachedAnswerPieces(recs []recTok) map[string]bool {
+	out := map[string]bool{}
+	for _, r := range recs {
+		if !r.ns && !r.fresh && r.tok[0] == 'n' {
+			out[r.tok] = true
+		}
+	}
+	return out
 }
 
 func markOf(rr dns.RR) int {
@@ -432,7 +455,7 @@ func replyRecs(qtok string, m *dns.Msg) []recTok {
 
 // tokens: `n0:299 n1:120 n1~120` — per piece the distinct TTLs of its
 // answer records, then per piece those of its authority/additional records.
-func tokens(recs []recTok, fresh map[string]int) string {
+func tokens(recs []recTok) string {
 	var order []string
 	sets := map[string]map[int64]bool{}
 	for _, pass := range []bool{false, true} {
@@ -448,7 +471,7 @@ func tokens(recs []recTok, fresh map[string]int) string {
 				sets[k] = map[int64]bool{}
 				order = append(order, k)
 			}
-			if fresh[r.tok] > 0 && r.tok[0] == 'n' {
+			if r.fresh {
 				sets[k][-1] = true
 			} else {
 				sets[k][r.ttl] = true
@@ -543,11 +566,11 @@ func fail(sig, format string, a ...any) string {
 // mark of the upstream answer they were admitted with; an alias entry may
 // hold copies of its target's authority records, so the origin is looked up
 // by (piece, mark), not by which entry currently sits in the piece's slot.
-func (h *histT) originOf(r recTok, freshCalls map[string]int) (*orec, bool) {
+func (h *histT) originOf(r recTok) (*orec, bool) {
 	if r.tok[0] == 'd' {
 		return h.cuts[r.tok], false
 	}
-	if freshCalls[r.tok] > 0 {
+	if r.fresh {
 		return nil, true
 	}
 	if r.mark >= 0 {
@@ -590,12 +613,13 @@ func (h *histT) judgeReply(qtok string, recs []recTok, freshCalls map[string]int
 		}
 	}
 	order := chainOrder(recs)
+	cachedAns := cachedAnswerPieces(recs)
 	for _, r := range recs {
 		if strings.HasPrefix(r.tok, "?") {
 			note(fail("c/hit/unattributable-record", "%s", r.tok))
 			continue
 		}
-		o, fresh := h.originOf(r, freshCalls)
+		o, fresh := h.originOf(r)
 		if fresh {
 			continue
 		}
@@ -615,7 +639,7 @@ func (h *histT) judgeReply(qtok string, recs []recTok, freshCalls map[string]int
 				if p == r.tok {
 					break
 				}
-				if freshCalls[p] == 0 && p[0] == 'n' && h.led[slotKey{p, false}] != nil {
+				if cachedAns[p] {
 					copyOf = true
 				}
 			}
@@ -713,12 +737,44 @@ func (h *histT) register(chs []change, script map[string]*specT, recs []recTok, 
 		// composed: anything re-cached from cached pieces inherits the
 		// shortest lifetime among them
 		if !refresh {
+			// the cached pieces this answer consumed: every piece after it in
+			// the chain whose answer records came out of the cache, and an
+			// authority-only piece (a negative terminal) that was hit
+			// directly.  Authority records that follow a cached alias piece
+			// may be that alias's copies: the alias entry is the piece that
+			// was consumed then, and it is bounded itself.
+			cachedAns := cachedAnswerPieces(recs)
+			holderSeen := false
 			for _, t := range chainAfter(recs, c.k.tok) {
-				if freshCalls[t] > 0 || t[0] != 'n' {
+				if t[0] != 'n' {
 					continue
 				}
-				// sub-queries see the shared slot only
-				if p := h.led[slotKey{t, false}]; p != nil {
+				var origins []*orec
+				if cachedAns[t] {
+					holderSeen = true
+					seen := map[int]bool{}
+					for _, r := range recs {
+						if r.tok != t || r.ns || r.fresh || seen[r.mark] {
+							continue
+						}
+						seen[r.mark] = true
+						if o, _ := h.originOf(r); o != nil {
+							origins = append(origins, o)
+						}
+					}
+				} else if !holderSeen {
+					seen := map[int]bool{}
+					for _, r := range recs {
+						if r.tok != t || !r.ns || r.fresh || seen[r.mark] {
+							continue
+						}
+						seen[r.mark] = true
+						if o, _ := h.originOf(r); o != nil {
+							origins = append(origins, o)
+						}
+					}
+				}
+				for _, p := range origins {
 					if rem := p.admitV + p.life - h.V; rem < life {
 						life, lim = rem, "piece-"+t
 					}
@@ -824,11 +880,12 @@ func (h *histT) query(route, tok string, ecs, do bool, up string) vlib.Res {
 	head := "miss"
 	if reply != nil {
 		recs = replyRecs(tok, reply)
+		markFresh(recs, calls, script)
 		if calls[tok] > 0 {
 			head = "fwd"
 		} else {
 			head = "hit"
-			if t := tokens(recs, calls); t != "" {
+			if t := tokens(recs); t != "" {
 				head += " " + t
 			}
 		}
@@ -859,7 +916,7 @@ func (h *histT) query(route, tok string, ecs, do bool, up string) vlib.Res {
 	cached := 0
 	pieces := map[string]bool{}
 	for _, r := range recs {
-		if calls[r.tok] == 0 && !pieces[r.tok] {
+		if !r.fresh && !pieces[r.tok] {
 			pieces[r.tok] = true
 			cached++
 		}
